@@ -44,22 +44,23 @@ func hDelegate19() (*delegate, *hState19, *hState19) {
 	return d, sil, nfl
 }
 
-// VerifC19_FullState: a full-state message with up to 3 parts, each with a
+// VerifC19_FullState: a full-state message with up to 3 (quick) / 5 (thorough) parts, each with a
 // registered or unknown key and a well-formed or malformed payload, in any order:
 // every part with a registered key and a well-formed payload is merged exactly once,
 // whatever precedes it; unknown keys and malformed payloads change nothing else and
 // nothing panics.
 //
-//vf:bounds unwind=12 decisions=200
+//vf:quick unwind=12 decisions=200
+//vf:thorough unwind=16 decisions=300 paths=2000000
 //vf:expect reach=merged reach=skipped-unknown reach=skipped-malformed
 func VerifC19_FullState() {
 	d, sil, nfl := hDelegate19()
-	n := 1 + vfChoice("parts", 3)
+	n := 1 + vfChoice("parts", 3+2*vfTier())
 	fs := &clusterpb.FullState{}
 	wantSil, wantNfl := []string{}, []string{}
 	for i := 0; i < n; i++ {
 		key := []string{"sil", "nfl", "future-state"}[vfChoice("key", 3)]
-		payload := []string{"ok-a", "ok-b", "ok-c"}[i]
+		payload := []string{"ok-a", "ok-b", "ok-c", "ok-d", "ok-e"}[i]
 		if vfBool("malformed") {
 			payload = "X-bad"
 			vfReach("skipped-malformed")
